@@ -118,6 +118,13 @@ def relNext (r : List Nat) : List Nat :=
   | 3 => relNextPatch r
   | _ => incrLast r
 
+/-- `parts[-2] += 1; parts[-1] = 0` (the `~=` upper bound for more than three release segments) -/
+def bumpSecondToLast : List Nat → List Nat
+  | [] => []
+  | [x] => [x]
+  | [x, _] => [x + 1, 0]
+  | x :: xs => x :: bumpSecondToLast xs
+
 def relText (r : List Nat) : String := joinWith "." (r.map natToString)
 
 /-! ### comparison key -/
